@@ -108,6 +108,43 @@ Definition input_values_present (p : plane) (px py : nat) : option bool :=
   | _ => None
   end.
 
+(* the shapes of the output clause: (label, component names, output values) *)
+Definition out_clause (ivp : bool) (py ow : nat) (orow : nat -> list cell) : option (option N * list N * list N) :=
+  match ow with
+  | 0 => None
+  | 1 => match py with
+         | 1 => match texts (orow 0) with Some [l] => Some (Some l, [], []) | _ => None end
+         | 2 => match ids (orow 0), ids (orow 1), texts (orow 0), texts (orow 1) with
+                | Some [a], Some [b], Some [l], Some [v] =>
+                    if ivp && negb (rid_eqb a b) then Some (Some l, [], [v]) else None
+                | _, _, _, _ => None
+                end
+         | _ => None
+         end
+  | _ => match py with
+         | 1 => match texts (orow 0) with Some cs => Some (None, cs, []) | None => None end
+         | 2 => if ivp
+                then match texts (orow 0), texts (orow 1) with Some cs, Some vs => Some (None, cs, vs) | _, _ => None end
+                else match texts (orow 0), texts (orow 1) with Some (l :: _), Some cs => Some (Some l, cs, []) | _, _ => None end
+         | 3 => match texts (orow 0), texts (orow 1), texts (orow 2) with
+                | Some (l :: _), Some cs, Some vs => Some (Some l, cs, vs)
+                | _, _, _ => None
+                end
+         | _ => None
+         end
+  end.
+
+(* annotation names and entries *)
+Definition ann_clause (p : plane) (q : option (nat * nat)) : option (list N * list (list N)) :=
+  match q with
+  | None => Some ([], [])
+  | Some (qx, qy) =>
+      match texts (cols (S qx) (width p) (row_at p 0)), all_texts (map (cols (S qx) (width p)) (rows (S qy) (length p) p)) with
+      | Some anns, Some aentries => Some (anns, aentries)
+      | _, _ => None
+      end
+  end.
+
 Definition recognize_horizontal (p : plane) : option fields :=
   match find_plane is_main p with
   | None => None
@@ -115,61 +152,20 @@ Definition recognize_horizontal (p : plane) : option fields :=
   match input_values_present p px py with
   | None => None
   | Some ivp =>
-  let h := length p in
-  let w := width p in
   let q := find_plane is_hcross p in
-  let oright := match q with Some (qx, _) => qx | None => w end in
-  let oleft := S px in
-  let body := rows (S py) h p in
+  let oright := match q with Some (qx, _) => qx | None => width p end in
+  let body := rows (S py) (length p) p in
   match texts (cols 0 px (row_at p 0)),
         (if ivp then texts (cols 0 px (row_at p (py - 1))) else Some []),
-        all_texts (map (cols 0 px) body) with
-  | Some iexpr, Some ivals, Some ientries =>
-    let ow := oright - oleft in
-    let orow := fun y => cols oleft oright (row_at p y) in
-    let outputs :=                                      (* (label, components, values) *)
-      match ow with
-      | 0 => None
-      | 1 => match py with
-             | 1 => match texts (orow 0) with Some [l] => Some (Some l, [], []) | _ => None end
-             | 2 => match ids (orow 0), ids (orow 1), texts (orow 0), texts (orow 1) with
-                    | Some [a], Some [b], Some [l], Some [v] =>
-                        if ivp && negb (rid_eqb a b) then Some (Some l, [], [v]) else None
-                    | _, _, _, _ => None
-                    end
-             | _ => None
-             end
-      | _ => match py with
-             | 1 => match texts (orow 0) with Some cs => Some (None, cs, []) | None => None end
-             | 2 => if ivp
-                    then match texts (orow 0), texts (orow 1) with Some cs, Some vs => Some (None, cs, vs) | _, _ => None end
-                    else match texts (orow 0), texts (orow 1) with Some (l :: _), Some cs => Some (Some l, cs, []) | _, _ => None end
-             | 3 => match texts (orow 0), texts (orow 1), texts (orow 2) with
-                    | Some (l :: _), Some cs, Some vs => Some (Some l, cs, vs)
-                    | _, _, _ => None
-                    end
-             | _ => None
-             end
-      end in
-    match outputs, all_texts (map (cols oleft oright) body) with
-    | Some (lbl, comps, ovals), Some oentries =>
-      match q with
-      | None =>
-          Some {| f_inputs := iexpr; f_input_values := ivals; f_input_entries := ientries;
-                  f_label := lbl; f_components := comps; f_output_values := ovals; f_output_entries := oentries;
-                  f_annotations := []; f_annotation_entries := [] |}
-      | Some (qx, qy) =>
-          match texts (cols (S qx) w (row_at p 0)), all_texts (map (cols (S qx) w) (rows (S qy) h p)) with
-          | Some anns, Some aentries =>
-              Some {| f_inputs := iexpr; f_input_values := ivals; f_input_entries := ientries;
-                      f_label := lbl; f_components := comps; f_output_values := ovals; f_output_entries := oentries;
-                      f_annotations := anns; f_annotation_entries := aentries |}
-          | _, _ => None
-          end
-      end
-    | _, _ => None
-    end
-  | _, _, _ => None
+        all_texts (map (cols 0 px) body),
+        out_clause ivp py (oright - S px) (fun y => cols (S px) oright (row_at p y)),
+        all_texts (map (cols (S px) oright) body),
+        ann_clause p q with
+  | Some iexpr, Some ivals, Some ientries, Some (lbl, comps, ovals), Some oentries, Some (anns, aentries) =>
+      Some {| f_inputs := iexpr; f_input_values := ivals; f_input_entries := ientries;
+              f_label := lbl; f_components := comps; f_output_values := ovals; f_output_entries := oentries;
+              f_annotations := anns; f_annotation_entries := aentries |}
+  | _, _, _, _, _, _ => None
   end
   end
   end.
@@ -193,19 +189,25 @@ Definition indexed {A} (l : list A) : list (N * A) := combine (map N.of_nat (seq
 Definition sep_ann (t : table) (c : cell) (l : list cell) : list cell :=
   match t_annotations t with [] => [] | _ => c :: l end.
 
-(* header line k (0 = top) *)
+(* header line k (0 = top): three blocks *)
+Definition top_rows (t : table) : nat := hdr t - (if t_values t then 1 else 0).    (* lines covered by the merged expression cells *)
+Definition lbl_text (t : table) : N := match t_label t with Some l => l | None => 0%N end.
+
+Definition h_ins (t : table) (k : nat) : list cell :=
+  map (fun ie => if Nat.ltb k (top_rows t) then Region (1%N, fst ie) (fst (snd ie)) else Region (2%N, fst ie) (snd (snd ie))) (indexed (t_inputs t)).
+
+Definition h_outs (t : table) (k : nat) : list cell :=
+  if multi t then
+    if label_row t && Nat.eqb k 0 then map (fun _ => Region (3%N, 0%N) (lbl_text t)) (t_outputs t)
+    else if Nat.ltb k (top_rows t) then map (fun on => Region (4%N, fst on) (fst (snd on))) (indexed (t_outputs t))
+    else map (fun on => Region (5%N, fst on) (snd (snd on))) (indexed (t_outputs t))
+  else
+    map (fun on => if Nat.ltb k (top_rows t) then Region (3%N, 0%N) (lbl_text t) else Region (5%N, fst on) (snd (snd on))) (indexed (t_outputs t)).
+
+Definition h_anns (t : table) : list cell := map (fun a => Region (6%N, fst a) (snd a)) (indexed (t_annotations t)).
+
 Definition header_row (t : table) (k : nat) : list cell :=
-  let top_rows := hdr t - (if t_values t then 1 else 0) in         (* lines covered by the merged expression cells *)
-  let ins := map (fun ie => if Nat.ltb k top_rows then Region (1%N, fst ie) (fst (snd ie)) else Region (2%N, fst ie) (snd (snd ie))) (indexed (t_inputs t)) in
-  let lbl := match t_label t with Some l => l | None => 0%N end in
-  let outs :=
-    if multi t then
-      if label_row t && Nat.eqb k 0 then map (fun _ => Region (3%N, 0%N) lbl) (t_outputs t)
-      else if Nat.ltb k top_rows then map (fun on => Region (4%N, fst on) (fst (snd on))) (indexed (t_outputs t))
-      else map (fun on => Region (5%N, fst on) (snd (snd on))) (indexed (t_outputs t))
-    else
-      map (fun on => if Nat.ltb k top_rows then Region (3%N, 0%N) lbl else Region (5%N, fst on) (snd (snd on))) (indexed (t_outputs t)) in
-  ins ++ VOut :: outs ++ sep_ann t VAnn (map (fun a => Region (6%N, fst a) (snd a)) (indexed (t_annotations t))).
+  h_ins t k ++ VOut :: h_outs t k ++ sep_ann t VAnn (h_anns t).
 
 Definition cross_row (t : table) : list cell :=
   map (fun _ => HOut) (t_inputs t) ++ Main :: map (fun _ => HOut) (t_outputs t) ++ sep_ann t HCross (map (fun _ => HOut) (t_annotations t)).
@@ -222,7 +224,7 @@ Definition fields_of (t : table) : fields :=
   {| f_inputs := map fst (t_inputs t);
      f_input_values := if t_values t then map snd (t_inputs t) else [];
      f_input_entries := map r_in (t_rules t);
-     f_label := if multi t then t_label t else Some (match t_label t with Some l => l | None => 0%N end);
+     f_label := if multi t then t_label t else Some (lbl_text t);
      f_components := if multi t then map fst (t_outputs t) else [];
      f_output_values := if t_values t then map snd (t_outputs t) else [];
      f_output_entries := map r_out (t_rules t);
